@@ -11,6 +11,7 @@ EXTENDS Sec, TLC, Json
 CONSTANTS Surrounds,   \* set of subsets of {3, 6, 9, 12} to combine with
           DocHi,       \* values of hi for which end-to-end documents are requested
           DocSurs,     \* surrounding-bit sets for which end-to-end documents are requested
+          FullDocs,    \* FALSE: documents only where the two bits of the other revision layout are both set or both clear
           E2EAlgs,     \* algorithms for which end-to-end documents are requested
           ApiAlgs,     \* algorithms for which the real file operations are run end to end
           ApiRels,     \* relevant-bit sets for which the real file operations are run end to end
@@ -60,5 +61,7 @@ EmitCase == Emit => PrintT(<<"CASE", ToJson(Case)>>)
 (* end-to-end document requests: algorithms producing revision R *)
 DocAlgs == {a \in E2EAlgs : Rev(a) = R}
 Doc(a) == [alg |-> a, p |-> P, api |-> (a \in ApiAlgs /\ rel \in ApiRels /\ sur \in ApiSurs)]
-EmitDocs == (Emit /\ hi \in DocHi /\ sur \in DocSurs) => \A a \in DocAlgs : PrintT(<<"DOC", ToJson(Doc(a))>>)
+OtherBits == IF R = 2 THEN {10, 11} ELSE {4, 5}
+DocWanted == FullDocs \/ (rel \cap OtherBits) \in {{}, OtherBits}
+EmitDocs == (Emit /\ hi \in DocHi /\ sur \in DocSurs /\ DocWanted) => \A a \in DocAlgs : PrintT(<<"DOC", ToJson(Doc(a))>>)
 =============================================================================
